@@ -159,6 +159,16 @@ def r1_rejection(ctx):
         sa, sb = m.slice_of_operand(s["a"], at=(s["bb"], 10**6)), m.slice_of_operand(s["b"], at=(s["bb"], 10**6))
         names_a = {(callee_of(m.term(b)) or {}).get("name") for b in sa["calls"]}
         names_b = {(callee_of(m.term(b)) or {}).get("name") for b in sb["calls"]}
+        def _pow_in_closure(sl):
+            # `.and_then(|d| 2usize.checked_pow(d))`: the power is computed inside a closure of the chain
+            for ck in sl["closures"]:
+                cf = p.funcs.get(ck)
+                if cf is not None and any((callee_of(t) or {}).get("name") in ("pow", "checked_pow") for _, t in cf.calls()):
+                    return True
+            return False
+        for nms, sl_ in ((names_a, sa), (names_b, sb)):
+            if "checked_pow" in nms or _pow_in_closure(sl_):
+                nms.add("pow")
         if "pow" in names_b or "pow" in names_a:
             oks = m.ok_exit_blocks()
             NEG = {"Ge": "Lt", "Lt": "Ge", "Le": "Gt", "Gt": "Le"}
